@@ -487,7 +487,7 @@ def model_eval(ctx, name, kind, cases):
 RULE = ("circuits over the operations accepted by each compiler on an index set drawn from {contiguous, gapped, "
         "containing indices >= 8 chosen so that set-iteration order differs from sorted order}, with dagger flags, "
         "matrix-parameter operations of 1-3 modes, and (gaussian_merge) hybrid circuits with Kerr/cubic/cross-Kerr "
-        "gates; non-trivial = set order != sorted order, or a dagger flag, or a hybrid circuit with >= 2 modes")
+        "gates in four families (1 mode, Gaussian only, displacement-free block followed by non-Gaussian gates, general); non-trivial = set order != sorted order, or a dagger flag, or a hybrid circuit with >= 2 modes")
 TRUSTED_BASE = [
     "Coq 8.16.1 kernel; vm_compute (primitive floats) for evaluating the model on cases",
     "hand-written models coq/C11/Model.v of GaussianUnitary.compile and Passive.compile (sorted index map, dagger "
@@ -794,12 +794,33 @@ def merge_family(spec):
         return "gaussian-only"
     if len(used) == 1:
         return "1mode"
+    # a displacement-free Gaussian part followed only by non-Gaussian gates: none of the recorded surgery
+    # defects (edge lost when the block has displacement gates; later Gaussian gates hoisted over a barrier;
+    # dependency-violating merge order behind a barrier) can occur here, so this family must stay clean
+    flags = [c[0] in NONGAUSS for c in spec["cmds"]]
+    first_ng = flags.index(True)
+    if all(flags[first_ng:]) and not any(c[0] in ("Dgate", "Xgate", "Zgate") for c in spec["cmds"]):
+        return "block-then-nongaussian"
     return "hybrid-multimode"
 
 
 def rand_hybrid(rng, family=None):
-    family = family or rng.choice(["1mode", "gaussian-only", "hybrid-multimode", "hybrid-multimode"])
+    family = family or rng.choice(["1mode", "gaussian-only", "hybrid-multimode", "hybrid-multimode", "block-then-nongaussian"])
     gauss = {**GU_PRIMS, **GU_DECOMP}
+    if family == "block-then-nongaussian":
+        if rng.random() < 0.7:
+            k = rng.randint(2, 4)
+            N, used = k, list(range(k))
+        else:
+            N, used = rand_index_set(rng, 4)
+            if len(used) < 2:
+                used = used + [max(used) + 1]
+                N = max(N, max(used) + 1)
+        nodisp = {k_: v for k_, v in gauss.items() if k_ not in ("Dgate", "Xgate", "Zgate")}
+        dp = 0.2 if rng.random() < 0.25 else 0.0
+        cmds = [rand_cmd(rng, used, nodisp, dagger_prob=dp, max_mat=2) for _ in range(rng.randint(1, 6))]
+        cmds += [rand_cmd(rng, used, NONGAUSS, dagger_prob=dp) for _ in range(rng.randint(1, 3))]
+        return {"N": N, "cmds": cmds}
     if family == "1mode":
         N, used = rng.choice([(1, [0]), (3, [2]), (10, [9])])
     elif rng.random() < 0.7:
@@ -1075,7 +1096,7 @@ def search(ctx):
             dec = spec_of_circuit(compiler_db["gaussian_merge"]().decompose(build_program(spec).circuit))
             vcases.append((spec, dec, out, sig))
         fam = merge_family(spec)
-        ctx.case({"compiler": "gaussian_merge", "spec": spec, "outcome": sig or "ok"}, nontrivial=fam == "hybrid-multimode",
+        ctx.case({"compiler": "gaussian_merge", "spec": spec, "outcome": sig or "ok"}, nontrivial=fam in ("hybrid-multimode", "block-then-nongaussian"),
                  bucket="merge-%s-%s" % (fam, (sig or "ok").replace("gaussian_merge:", "")))
         if sig and sig not in found:
             found[sig] = True
